@@ -34,6 +34,7 @@ type Batch struct {
 	Built    []string          // packages in the binary
 	div      map[string]int    // parser -> number of parses the watchdog had to stop
 	raceBin  string
+	nest     map[string]bool // parsers (global form) that offer PushContex/PopContex
 }
 
 var batchCounter int
@@ -48,7 +49,7 @@ func Build(modRoot string, srcs []Src) (*Batch, error) {
 	batchCounter++
 	id := fmt.Sprintf("b%d_%d", os.Getpid(), batchCounter)
 	b := &Batch{ModRoot: modRoot, Dir: filepath.Join(modRoot, "verifsim", "gen", id), Import: modPath + "/verifsim/gen/" + id,
-		CompErrs: map[string]string{}}
+		CompErrs: map[string]string{}, nest: map[string]bool{}}
 	for _, s := range srcs {
 		if s.Lang != "go" {
 			continue
@@ -60,6 +61,15 @@ func Build(modRoot string, srcs []Src) (*Batch, error) {
 		}
 		if err := os.WriteFile(filepath.Join(d, "parser.go"), []byte(s.Text), 0o644); err != nil {
 			return nil, err
+		}
+		// nested parsing is offered by the global form through PushContex/PopContex; a tree that does not offer it simply
+		// does not get the nested-parse operation (the driver then registers no Push/Pop for this parser)
+		if !s.Object && strings.Contains(s.Text, "func PushContex()") && strings.Contains(s.Text, "func PopContex()") {
+			b.nest[s.Name] = true
+			nf := "package " + s.Name + "\n\nfunc VPush() { PushContex() }\nfunc VPop()  { PopContex() }\n"
+			if err := os.WriteFile(filepath.Join(d, "nest.go"), []byte(nf), 0o644); err != nil {
+				return nil, err
+			}
 		}
 	}
 	live := map[string]bool{}
@@ -131,6 +141,11 @@ func (b *Batch) writeMain(names []string) error {
 	for _, n := range names {
 		fmt.Fprintf(&sb, "\tengbrt.Register(&engbrt.Parser{Name: %q, Object: %v, New: %s.VNew, Init: %s.VInit, Parse: %s.VParse, Action: %s.VAction, Translate: %s.VTranslate, Consts: %s.VConsts, Trace: %s.VTrace, ErrAcc: %s.VErrAcc,\n\t\tSetHooks: func(n func(string, int) (int, int), r func(int)) { %s.HookNext = n; %s.HookRec = r }})\n",
 			n, obj[n], n, n, n, n, n, n, n, n, n, n)
+	}
+	for _, n := range names {
+		if b.nest[n] {
+			fmt.Fprintf(&sb, "\tengbrt.SetNest(%q, %s.VPush, %s.VPop)\n", n, n, n)
+		}
 	}
 	sb.WriteString("\tengbrt.Main()\n}\n")
 	return os.WriteFile(filepath.Join(b.Dir, "main.go"), []byte(sb.String()), 0o644)
